@@ -1658,7 +1658,7 @@ def df_slice(df, lb = None, ub = None, openclose = '(]', n = 1):
     if isinstance(ub, datetime.time) and isinstance(lb, datetime.time) and lb>ub:
         pre  = df_slice(df, None, ub, openclose)
         post = df_slice(df, lb, None, openclose)
-        return pd.concat([pre, post]).sort_index()        
+        return pd.concat([pre, post]).sort_index(kind = "stable")        
     if isinstance(df, list): 
         if isinstance(lb, list) and ub is None:
             if not _is_non_decreasing(lb):
